@@ -936,12 +936,13 @@ class BLOC(Command):
 
 
 class FVAR():
-    def __init__(self, number: int = 1, value: float = 0.0):
+    def __init__(self, number: int = 1, value: float = 0.0, included: bool = False):
         """
         FVAR osf[1] free variables
         """
         self.fvar_value = value  # value
         self.number = number  # occurence inside of FVAR instructions
+        self.included = included  # defined in an include file (+filename), therefore not written to the res file
         self.usage = 1
 
     def __str__(self):
@@ -978,7 +979,7 @@ class FVARs():
 
     def __str__(self) -> str:
         # returnes FVAR as list of FVAR instructions with seven numbers in one line
-        lines = chunks(self.as_stringlist, 7)
+        lines = chunks([str(x.fvar_value) for x in self.fvars if not x.included], 7)
         fvars = ['   '.join(i) for i in lines]
         fvars = ['FVAR   ' + i for i in fvars]
         return "\n".join(fvars)
